@@ -2,6 +2,7 @@ package simrt
 
 import (
 	"fmt"
+	"reflect"
 	"sort"
 )
 
@@ -131,6 +132,10 @@ func noteMapVisit(site, n int, nonIdent bool) {
 	}
 }
 
+// sortPairs puts the pairs in ascending key order. It must not call methods of
+// the key type (a String method is code under test: calling it in the native,
+// random order of the map would smuggle that order into the run), so keys are
+// compared by their underlying value via reflection.
 func sortPairs[K comparable, V any](pp []Pair[K, V]) {
 	if len(pp) == 0 {
 		return
@@ -138,20 +143,62 @@ func sortPairs[K comparable, V any](pp []Pair[K, V]) {
 	switch any(pp[0].k).(type) {
 	case string:
 		sort.Slice(pp, func(i, j int) bool { return any(pp[i].k).(string) < any(pp[j].k).(string) })
+		return
 	case int:
 		sort.Slice(pp, func(i, j int) bool { return any(pp[i].k).(int) < any(pp[j].k).(int) })
-	default:
-		keys := make([]string, len(pp))
-		idx := make([]int, len(pp))
-		for i := range pp {
-			keys[i] = fmt.Sprintf("%v", pp[i].k)
-			idx[i] = i
-		}
-		sort.SliceStable(idx, func(a, b int) bool { return keys[idx[a]] < keys[idx[b]] })
-		cp := make([]Pair[K, V], len(pp))
-		for i, j := range idx {
-			cp[i] = pp[j]
-		}
-		copy(pp, cp)
+		return
 	}
+	type keyed struct {
+		kind int // 0 int, 1 uint, 2 float, 3 string, 4 other
+		i    int64
+		u    uint64
+		f    float64
+		s    string
+		idx  int
+	}
+	ks := make([]keyed, len(pp))
+	for i := range pp {
+		v := reflect.ValueOf(pp[i].k)
+		k := keyed{idx: i, kind: 4}
+		switch v.Kind() {
+		case reflect.Int, reflect.Int8, reflect.Int16, reflect.Int32, reflect.Int64:
+			k.kind, k.i = 0, v.Int()
+		case reflect.Uint, reflect.Uint8, reflect.Uint16, reflect.Uint32, reflect.Uint64, reflect.Uintptr:
+			k.kind, k.u = 1, v.Uint()
+		case reflect.Float32, reflect.Float64:
+			k.kind, k.f = 2, v.Float()
+		case reflect.String:
+			k.kind, k.s = 3, v.String()
+		case reflect.Bool:
+			k.kind = 0
+			if v.Bool() {
+				k.i = 1
+			}
+		default:
+			// structs, arrays, pointers, interfaces: the Go-syntax form of the value, which
+			// does not call String/Error methods (%#v would call GoString, which is rare)
+			k.s = fmt.Sprintf("%#v", pp[i].k)
+		}
+		ks[i] = k
+	}
+	sort.SliceStable(ks, func(a, b int) bool {
+		x, y := ks[a], ks[b]
+		if x.kind != y.kind {
+			return x.kind < y.kind
+		}
+		switch x.kind {
+		case 0:
+			return x.i < y.i
+		case 1:
+			return x.u < y.u
+		case 2:
+			return x.f < y.f
+		}
+		return x.s < y.s
+	})
+	cp := make([]Pair[K, V], len(pp))
+	for i, k := range ks {
+		cp[i] = pp[k.idx]
+	}
+	copy(pp, cp)
 }
